@@ -42,7 +42,7 @@ theorem getD_set_pair (l : List (Int × Time)) (i j : Nat) (a : Int × Time) :
   · subst hij
     by_cases hl : i < l.length
     · simp [hl]
-    · simp [hl, List.getElem?_eq_none (Nat.le_of_not_lt hl)]
+    · simp [hl]
   · simp [hij]
 
 /-- appending while there is room -/
@@ -99,14 +99,14 @@ theorem Win.push_full {w : Win} (h : w.WF) (hfull : w.size = w.period) (v : Int)
           rw [hlast, Nat.add_mod_right, Nat.mod_eq_of_lt hh]
         rw [this]
         simp only [true_and, hh, ↓reduceIte]
-        rw [List.getElem_append_right (by simp [Win.items]; omega)]
+        rw [List.getElem_append_right (by simp; omega)]
         simp
       · have hne := add_mod_ne_self (h := w.head) (j := i + 1) (n := w.period) hh (by omega) (by omega)
         have : ¬ (w.head = (w.head + (i + 1)) % w.period ∧ (w.head + (i + 1)) % w.period < w.period) :=
           fun e => hne e.1.symm
         simp only [this, ↓reduceIte]
-        rw [List.getElem_append_left (by simp [Win.items]; omega)]
-        simp [Win.items, Win.elemAt]
+        rw [List.getElem_append_left (by simp; omega)]
+        simp [Win.elemAt]
   · simp only [Win.items, hfull]
     cases hp : w.period with
     | zero => omega
@@ -139,7 +139,7 @@ theorem lastN_snoc_ge {α : Type} {n : Nat} {l : List α} (a : α) (hn : 0 < n) 
 theorem length_lastN {α : Type} (n : Nat) (l : List α) : (lastN n l).length = min l.length n := by
   simp [lastN]; omega
 
-theorem head?_lastN {α : Type} {n : Nat} {l : List α} (h : n ≤ l.length) (hn : 0 < n) :
+theorem head?_lastN {α : Type} {n : Nat} {l : List α} (_h : n ≤ l.length) (_hn : 0 < n) :
     (lastN n l).head? = l[l.length - n]? := by
   simp [lastN, List.head?_drop]
 
